@@ -873,6 +873,12 @@ func primitivesFailClosed(c *Ctx, rule string, all map[*ssa.Function]bool, withV
 					c.Pass(rule, key, p.Pos(call.Pos()), "result handed to the caller")
 					continue
 				}
+				// an entry that cannot be evaluated may be passed over in a loop as long as a result with
+				// nothing verified is refused afterwards: that case is decided by R02h
+				if _, H := loopAround(fn, call.Block()); H != nil && failureContinues(fn, call) && p.refusesEmpty(fn, call) {
+					c.Pass(rule, key, p.Pos(call.Pos()), "a failing entry is passed over, a result with nothing verified is refused (see R02h)")
+					continue
+				}
 				// a failure may lead to another primitive (fallback) but not to success
 				del := map[edge]bool{}
 				for _, b2 := range fn.Blocks {
@@ -1241,71 +1247,7 @@ func c02LoopSkips(c *Ctx, all map[*ssa.Function]bool) {
 					c.Pass("R02h", key, p.Pos(call.Pos()), "every iteration verifies its entry")
 					continue
 				}
-				// a later "nothing was verified" test on every success path
-				empty := Guard{Name: "len(result) != 0", Match: func(f Fact) bool {
-					L, _ := loopAround(fn, call.Block())
-					// a flag set in the loop: `if !verified` / `if verified`
-					if ph, ok := f.V.(*ssa.Phi); ok {
-						setInLoop := dependsOn(ph, func(x ssa.Value) bool {
-							q, ok := x.(*ssa.Phi)
-							if !ok {
-								return false
-							}
-							for i, e := range q.Edges {
-								if bv, isB := boolConst(e); isB && bv && L[q.Block().Preds[i].Index] {
-									return true
-								}
-							}
-							return false
-						})
-						return setInLoop && f.Kind == IsTrue
-					}
-					bo, ok := f.V.(*ssa.BinOp)
-					if !ok {
-						return false
-					}
-					// a counter incremented in the loop: `n == 0`, `n > 0`
-					if _, isCall := bo.X.(*ssa.Call); !isCall && isIntConst(bo.Y, 0) {
-						counted := dependsOn(bo.X, func(x ssa.Value) bool {
-							a, ok := x.(*ssa.BinOp)
-							return ok && a.Op == token.ADD && L[a.Block().Index] && (isIntConst(a.Y, 1) || isIntConst(a.X, 1))
-						})
-						if counted {
-							return (bo.Op == token.EQL && f.Kind == IsFalse) || (bo.Op == token.NEQ && f.Kind == IsTrue) || (bo.Op == token.GTR && f.Kind == IsTrue)
-						}
-						return false
-					}
-					lc, ok := bo.X.(*ssa.Call)
-					if !ok {
-						return false
-					}
-					bi, ok := lc.Call.Value.(*ssa.Builtin)
-					if !ok || bi.Name() != "len" || !isIntConst(bo.Y, 0) {
-						return false
-					}
-					// the list that is tested is one the loop adds verified entries to
-					grown := dependsOn(lc.Call.Args[0], func(x ssa.Value) bool {
-						ac, ok := x.(*ssa.Call)
-						if !ok || !L[ac.Block().Index] {
-							return false
-						}
-						ab, ok := ac.Call.Value.(*ssa.Builtin)
-						return ok && ab.Name() == "append"
-					})
-					if !grown {
-						return false
-					}
-					return (bo.Op == token.EQL && f.Kind == IsFalse) || (bo.Op == token.NEQ && f.Kind == IsTrue) || (bo.Op == token.GTR && f.Kind == IsTrue)
-				}}
-				okAll := true
-				for _, r := range p.successReturns(fn) {
-					if !reachableAfter(fn, call, r, nil, nil) && !reach(fn, []*ssa.BasicBlock{fn.Blocks[0]}, nil, nil)[r.Block().Index] {
-						continue
-					}
-					if missing, _ := p.unguardedFromEntry(fn, r, empty); len(missing) > 0 {
-						okAll = false
-					}
-				}
+				okAll := p.refusesEmpty(fn, call)
 				c.Check(okAll, "R02h", key, p.Pos(call.Pos()), "entries may be skipped, but an empty result is refused afterwards", "an iteration of the verification loop can skip its entry without verifying it, and the function can still succeed with nothing verified: an artifact whose only signature entry is of the skipped kind is reported as valid")
 			}
 		}
@@ -1365,6 +1307,77 @@ func c02LoopSkips(c *Ctx, all map[*ssa.Function]bool) {
 			c.Check(!skips, "R02h", "parseManifest stores every named section it parsed", p.Pos(upd.Pos()), "last section of a name wins, as in verifySigFile", "a named manifest section can be parsed and then dropped (not stored into FilesMap.Files): when a name occurs twice, the file digests are checked against one occurrence while the signature file's section digest is checked against the other, so a forged duplicate section makes a replaced payload verify")
 		}
 	}
+}
+
+// refusesEmpty: every success return of fn that can follow the loop around `call` lies behind a
+// test that the loop collected something: the length of a list the loop appends to, a counter it
+// increments or a flag it sets.
+func (p *Prog) refusesEmpty(fn *ssa.Function, call *ssa.Call) bool {
+	empty := Guard{Name: "len(result) != 0", Match: func(f Fact) bool {
+		L, _ := loopAround(fn, call.Block())
+		// a flag set in the loop: `if !verified` / `if verified`
+		if ph, ok := f.V.(*ssa.Phi); ok {
+			setInLoop := dependsOn(ph, func(x ssa.Value) bool {
+				q, ok := x.(*ssa.Phi)
+				if !ok {
+					return false
+				}
+				for i, e := range q.Edges {
+					if bv, isB := boolConst(e); isB && bv && L[q.Block().Preds[i].Index] {
+						return true
+					}
+				}
+				return false
+			})
+			return setInLoop && f.Kind == IsTrue
+		}
+		bo, ok := f.V.(*ssa.BinOp)
+		if !ok {
+			return false
+		}
+		// a counter incremented in the loop: `n == 0`, `n > 0`
+		if _, isCall := bo.X.(*ssa.Call); !isCall && isIntConst(bo.Y, 0) {
+			counted := dependsOn(bo.X, func(x ssa.Value) bool {
+				a, ok := x.(*ssa.BinOp)
+				return ok && a.Op == token.ADD && L[a.Block().Index] && (isIntConst(a.Y, 1) || isIntConst(a.X, 1))
+			})
+			if counted {
+				return (bo.Op == token.EQL && f.Kind == IsFalse) || (bo.Op == token.NEQ && f.Kind == IsTrue) || (bo.Op == token.GTR && f.Kind == IsTrue)
+			}
+			return false
+		}
+		lc, ok := bo.X.(*ssa.Call)
+		if !ok {
+			return false
+		}
+		bi, ok := lc.Call.Value.(*ssa.Builtin)
+		if !ok || bi.Name() != "len" || !isIntConst(bo.Y, 0) {
+			return false
+		}
+		// the list that is tested is one the loop adds verified entries to
+		grown := dependsOn(lc.Call.Args[0], func(x ssa.Value) bool {
+			ac, ok := x.(*ssa.Call)
+			if !ok || !L[ac.Block().Index] {
+				return false
+			}
+			ab, ok := ac.Call.Value.(*ssa.Builtin)
+			return ok && ab.Name() == "append"
+		})
+		if !grown {
+			return false
+		}
+		return (bo.Op == token.EQL && f.Kind == IsFalse) || (bo.Op == token.NEQ && f.Kind == IsTrue) || (bo.Op == token.GTR && f.Kind == IsTrue)
+	}}
+	okAll := true
+	for _, r := range p.successReturns(fn) {
+		if !reachableAfter(fn, call, r, nil, nil) && !reach(fn, []*ssa.BasicBlock{fn.Blocks[0]}, nil, nil)[r.Block().Index] {
+			continue
+		}
+		if missing, _ := p.unguardedFromEntry(fn, r, empty); len(missing) > 0 {
+			okAll = false
+		}
+	}
+	return okAll
 }
 
 // failureContinues: the loop around `call` can go on to its next iteration although the call's
